@@ -2,6 +2,7 @@
 which library operations are executed for every case of the universe, and which clauses of the
 acceptor belong to the property."""
 import copy
+import json
 
 from .. import core, tlc, codec_pipeline as P, codec_run as R
 from .. import universe as U
@@ -67,7 +68,10 @@ def plan_c03(case):
     if err:
         return trace(case, [], err)
     ev = [R.enc_event('der', obj), R.enc_event('cer', obj)]
-    for d, c in ((True, 0), (False, 0), (True, 2), (False, 3)):
+    # tiny segments of a 64 KiB string make tens of thousands of TLVs, which the TLA+ reader takes hours to walk (it copies
+    # the remainder at every TLV): the very large size cases are judged in DER, CER and unsegmented BER only
+    huge = len(json.dumps(case['v'])) > 100000
+    for d, c in ((True, 0), (False, 0)) + (() if huge else ((True, 2), (False, 3))):
         ev.append(R.enc_event('ber', obj, d, c))
     return trace(case, ev)
 
